@@ -23,6 +23,10 @@ PAR_ALLOW = {
     "rayon::iter::ParallelIterator::map": "order preserving adaptor",
     "rayon::iter::ParallelIterator::flatten": "order preserving adaptor",
     "rayon::iter::ParallelIterator::flat_map": "order preserving adaptor",
+    "rayon::iter::ParallelIterator::flat_map_iter": "order preserving adaptor (sequential inner iterator)",
+    "rayon::iter::ParallelIterator::flatten_iter": "order preserving adaptor (sequential inner iterator)",
+    "rayon::iter::ParallelIterator::map_with": "order preserving adaptor",
+    "rayon::iter::ParallelIterator::map_init": "order preserving adaptor",
     "rayon::iter::ParallelIterator::filter": "order preserving adaptor",
     "rayon::iter::ParallelIterator::collect": "collect into Vec keeps the source order (rayon docs)",
     "rayon::iter::IndexedParallelIterator::collect_into_vec": "ordered",
